@@ -5,6 +5,60 @@ import os
 VERIF = os.path.dirname(os.path.dirname(os.path.abspath(__file__)))
 
 CHECKS = {
+    "C04": dict(
+        text="Coq theorems about the model of restore_path / find_path_to / find_path_from / revert_path (Paths.v), for every graph instance with an inverted copy, every ball "
+             "depth and every query in U, under NoColl: a returned path replays from the central state to the query and its length is the true distance (dist_is); 'no path' "
+             "exactly when the state is in none of the layers 0..D; the internal assertion cannot fire; reverted paths are valid. The ball's hash layers are those C09_bfs_prefix "
+             "delivers. Tie: the path model runs in Coq on the balls/queries the implementation ran on (inside / boundary / outside ball / outside orbit; permutation and "
+             "invertible matrix graphs) with exact equality of returned paths, plus path replay and distance by the naive oracle.",
+        note="Trusted: Coq kernel; models Paths.v/Bfs.v/GraphImpl.v/Def.v; torch.isin/searchsorted/nonzero as modelled; np.linalg.inv results enter as data re-checked by the model; NoColl.",
+        technique="Coq proof (backward induction over layers) + model/implementation correspondence",
+        design="7 (C04)"),
+    "C05": dict(
+        text="Coq theorems: MITM from a ball of depth D is sound, complete and exact up to distance 2D and returns nothing beyond (mitm_to_sound/complete/none/exact); the "
+             "synchronous set-to-set search returns a path from a member of the start set to a member of the destination set of globally minimal length whenever that minimum "
+             "is <= 2*max_diameter (0 when the sets intersect) and nothing otherwise (between_sound/complete/none), for start/destination lists of any size, order, with "
+             "duplicates; the interactive BFS computes the true layers from any start list. Tie: Mitm.v/Interactive.v evaluated in Coq on the implementation's cases, exact "
+             "equality of results; all-pairs naive oracle.",
+        note="Trusted: as C04. The model of MITM tries the first collected middle state (later ones only matter under hash collisions, excluded by NoColl). "
+             "Hypothesis 'small': backward layers stay below the 10^12 size limit.",
+        technique="Coq proof (meeting-order invariant over two BFS fronts) + model/implementation correspondence",
+        design="7 (C05)"),
+    "C08": dict(
+        text="Coq theorems about the BFS model with return_all_edges: on a completed run the edge list is exactly {(hash v, hash g(v)) | v in the orbit, g a generator}; on an "
+             "interrupted run exactly the out-edges of the non-final layers plus the reversals of the last expansion; states and hashes of every stored layer are aligned (vertex "
+             "numbering is consistent). Tie: BFS model with edges compared exactly with the implementation; the renumbering/naming model Export.v (hashes_to_indices, "
+             "edges_list, vertex_name, get_edge_name) compared exactly; dense/sparse matrices, networkx export, symmetry and labels checked against the true graph by the oracle.",
+        note="Trusted: as C01; numpy/scipy/networkx containers compared as sets of triples; Export.v is validated by correspondence only (no theorem about the renumbering yet); "
+             "matrix-graph vertex names (numpy repr) are not modelled.",
+        technique="Coq proof (edge-block invariant through the BFS loop) + model/implementation correspondence",
+        design="7 (C08)"),
+    "C10": dict(
+        text="Coq theorems about Def.v: the inverse permutation undoes the permutation on every sequence; generator i of the inverted definition undoes generator i; the inverse "
+             "map (dict semantics) is correct and is None exactly when some inverse is missing; make_inverse_closed keeps generators/names/order, appends exactly the missing "
+             "inverses, yields a closed definition and is idempotent; MatrixGenerator.inv, for ANY float-inverse candidate, returns a TWO-sided inverse that undoes the generator "
+             "on states (via MathComp mulmx1C over Z/2^64 and Z/m), and rejects non-inverses. Tie: exact equality model = implementation on random generator lists "
+             "(repeats, identity, involutions), unimodular and modular matrices with the recorded np.linalg.inv result as oracle.",
+        note="Trusted: Coq kernel, MathComp 1.15 (axiom-free here), model Def.v. PARTIAL: completeness of inv ('succeeds whenever an integer inverse exists') rests on LAPACK "
+             "returning the inverse within 1/2, validated by exploration only (416/1500 failures before the rounding fix, 0 after).",
+        technique="Coq proof (lists + MathComp bridge) + oracle-recorded correspondence",
+        design="7 (C10)"),
+    "C12": dict(
+        text="Coq theorems about the model of cayleypy.find_path for graphs without a pre-trained model (both the inverse-closed and the directed branch): any returned sequence "
+             "replays from the start state to the central state and is shortest; a path of exactly the distance is returned whenever the distance is at most twice the depth of the "
+             "cached ball; nothing is returned only when no such path exists. Tie: query sequences on ONE object (cache filled by the first call's arguments) compared exactly "
+             "with the model; replay + distance oracle.",
+        note="Trusted: as C05. Graph names with a pre-trained model need the network and are excluded (zoo graphs are unnamed). History: the cache is modelled as 'ball computed "
+             "from the first call's arguments'.",
+        technique="Coq proof (corollary of MITM exactness) + correspondence on query histories",
+        design="7 (C12)"),
+    "C19": dict(
+        text="Coq theorems: the Hamming heuristic equals the number of mismatching positions, is 0 exactly for the central state, the zero heuristic is 0, and batched scoring "
+             "equals unbatched scoring in the same order for every batch size and every row-wise predictor. Tie: exact equality with the implementation on vector- and "
+             "matrix-shaped states, batch sizes 1..|batch|+1, callable predictors.",
+        note="Trusted: Coq kernel; model Predictor.v; torch !=/sum/tensor_split/hstack semantics.",
+        technique="Coq proof (induction) + model/implementation correspondence",
+        design="7 (C19)"),
     "C01": dict(
         text="Coq theorems about a statement-by-statement Gallina model of BfsAlgorithm.bfs (hash-sorted de-duplication, binary-search subtraction of seen layers, "
              "batched expansion with cross-batch subtraction, two-layer window for inverse-closed generators, the three breaks): for EVERY graph instance, non-empty start "
